@@ -153,23 +153,36 @@ func (r *run) rebuild() {
 
 func TestRollbackEqualsDirect(t *testing.T) {
 	rapid.Check(t, func(t *rapid.T) {
-		era := statekit.EraV1
+		era := statekit.Era(rapid.SampledFrom(eras()).Draw(t, "era"))
 		prof := statekit.DrawProfile(t, era)
 		k := statekit.New(prof)
 		r := &run{t: t, k: k, hist: &history{Profile: prof, Era: era.String()}, dumps: map[uint32]*statekit.DPoSObs{}, kinds: map[string]bool{}}
 		defer func() { r.k.Close() }()
 		r.g = statekit.NewGen(k)
 		r.g.DrawLazy(t)
+		if era >= statekit.EraCR {
+			r.g.AddKinds(statekit.CRKinds())
+		}
 		// heights below VoteStart do not touch the DPoS state
 		k.StartAt(prof.VoteStart - 1)
 		r.base = prof.VoteStart
-		maxHeight := prof.VoteStart + uint32(rapid.IntRange(10, 45).Draw(t, "maxheight"))
+		// histories reach a drawn distance past the last activation height of the era
+		last := prof.PublicDPOS
+		switch era {
+		case statekit.EraCR:
+			last = prof.CRClaimStart
+		case statekit.EraNewCR:
+			last = prof.RevertToPOWStart
+		case statekit.EraV2:
+			last = prof.DPoSV2Start
+		}
+		maxHeight := last + uint32(rapid.IntRange(4, 30).Draw(t, "maxheight"))
 		if vk.Thorough() {
-			maxHeight = prof.VoteStart + uint32(rapid.IntRange(10, 70).Draw(t, "maxheight2"))
+			maxHeight = last + uint32(rapid.IntRange(4, 50).Draw(t, "maxheight2"))
 		}
 		// first block at VoteStart: after it the lowest rollback target exists
 		r.advance(1)
-		nops := rapid.IntRange(4, 14).Draw(t, "nops")
+		nops := rapid.IntRange(6, 30).Draw(t, "nops")
 		for op := 0; op < nops; op++ {
 			if r.k.Height >= maxHeight || r.dead != "" {
 				break
@@ -289,7 +302,11 @@ func (r *run) rollbackEpisode() bool {
 		if r.k.Blocks[r.k.Height+1] == nil {
 			break
 		}
-		r.k.Replay()
+		if p, val, frame := vk.Catch(func() { r.k.Replay() }); p {
+			// the same block was processed without a panic before the rollback
+			vk.Report(t, "C21:reapply:panic:"+frame, fmt.Sprintf("re-applying block %d after the rollback panicked: %v", r.k.Height+1, val), r.render())
+			return false
+		}
 		clean, ok := r.compare("reapply", r.k.Height, r.k.ObserveDPoS(), r.dumps[r.k.Height])
 		if !ok {
 			return false
@@ -342,6 +359,20 @@ func (r *run) classify() {
 		vk.Class("has-round-change")
 	}
 	vk.Count("blocks", int64(len(r.hist.Blocks)))
+}
+
+// eras lists the eras to draw from (C21_ERAS=0,1,2,3 narrows it for debugging).
+func eras() []int {
+	if v := os.Getenv("C21_ERAS"); v != "" {
+		var out []int
+		for _, c := range v {
+			if c >= '0' && c <= '3' {
+				out = append(out, int(c-'0'))
+			}
+		}
+		return out
+	}
+	return []int{0, 1, 1, 2, 2, 2}
 }
 
 func minInt(a, b int) int {
